@@ -85,7 +85,15 @@ def valid_seeds(rng):
     seeds["protobufs"] = [write_variant(len(body)) + body, b"\x08\x0f"]
     seeds["features"] = [b"0x5A7FFFF7,0x1E", b"0x1"]
     seeds["credentials"] = [b"aa:bb:cc:dd", b"aa:bb"]
+    # valid mDNS responses (PTR/SRV/TXT/A, with and without name compression) from the
+    # independent encoder of harness/c12.py
+    c12 = importlib.import_module("c12")
     seeds["mdns"] = []
+    for i in range(3):
+        dev = c12.make_device(rng, i, c12.ALL_TYPES, nserv=2)
+        for dg in c12.device_datagrams(rng, dev):
+            seeds["mdns"].append(c12.encode_msg(dg["msg"])[0])
+    seeds["mdns"] = seeds["mdns"][:5]
     return seeds
 
 
@@ -207,7 +215,9 @@ def hostile_announcements(c12, rng):
     def kv(k, v):
         return [k, v.encode().hex() if isinstance(v, str) else v.hex()]
 
-    bad_values = ["zz", "0xZZ", "", "0x", "-1", "9" * 40, "\xff\xfe", "0x1,0xZ", "nan", "1e999"]
+    bad_values = ["zz", "0xZZ", "", "0x", "-1", "9" * 40, "\xff\xfe", "0x1,0xZ", "nan", "1e999",
+                  # long near-matches: values that make a backtracking regular expression explode
+                  "a" * 60 + "!", "Mac" + "a" * 60 + "!", "AppleTV" + "1" * 60 + "x", "0" * 60 + "x,", "A1,B2," * 12 + "!"]
     keys = {
         "_companion-link._tcp.local": ["rpfl", "rpmd", "rpmac", "rpba", "rpvr", "rpad"],
         "_airplay._tcp.local": ["features", "flags", "sf", "ft", "model", "deviceid", "acl", "pw", "osvers", "srcvers", "psi", "gid", "pi", "pk", "protovers"],
@@ -255,6 +265,66 @@ def hostile_announcements(c12, rng):
     return out, hostile_ip
 
 
+SCAN_WORKER = os.path.join(os.path.dirname(os.path.abspath(__file__)), "c05_scan_worker.py")
+
+
+def run_scans(jobs, per_job_timeout=20):
+    """Run scan jobs in worker processes; a job that does not finish is reported as a hang and the
+    worker is restarted with the remaining jobs.  Returns one result dict per job."""
+    import subprocess
+    import time
+    env = dict(os.environ)
+    env.update({"PYTHONPATH": common.REPO + ":" + os.path.dirname(os.path.abspath(__file__)), "PYTHONHASHSEED": "0", "PYTHONWARNINGS": "ignore"})
+    results = [None] * len(jobs)
+
+    def run_range(idxs):
+        pos = 0
+        while pos < len(idxs):
+            chunk = idxs[pos:]
+            p = subprocess.Popen([common.PY, SCAN_WORKER], stdin=subprocess.PIPE, stdout=subprocess.PIPE, stderr=subprocess.DEVNULL, env=env, text=True)
+            try:
+                p.stdin.write(json.dumps([jobs[i] for i in chunk]))
+                p.stdin.close()
+            except BrokenPipeError:
+                pass
+            import selectors
+            sel = selectors.DefaultSelector()
+            sel.register(p.stdout, selectors.EVENT_READ)
+            done_here = 0
+            hung = False
+            buf = ""
+            deadline = time.time() + per_job_timeout + 20   # first job includes interpreter start-up
+            while done_here < len(chunk):
+                ev = sel.select(timeout=max(0.0, deadline - time.time()))
+                if not ev:
+                    hung = True
+                    break
+                data = os.read(p.stdout.fileno(), 1 << 20).decode("utf-8", "replace")
+                if not data:
+                    break
+                buf += data
+                while "\n" in buf:
+                    line, buf = buf.split("\n", 1)
+                    if not line.startswith("{"):
+                        continue
+                    results[chunk[done_here]] = json.loads(line)
+                    done_here += 1
+                    deadline = time.time() + per_job_timeout
+            p.kill()
+            p.wait()
+            if done_here < len(chunk):
+                results[chunk[done_here]] = {"err": "HANG" if hung else "worker died", "obs": None, "hang": True}
+                done_here += 1
+            pos += done_here
+
+    from concurrent.futures import ThreadPoolExecutor
+    n = 8
+    parts = [list(range(k, len(jobs), n)) for k in range(n)]
+    with ThreadPoolExecutor(max_workers=n) as ex:
+        list(ex.map(run_range, [p_ for p_ in parts if p_]))
+    return results
+
+
 def discovery_dynamic(ctx):
     c12 = importlib.import_module("c12")
     rng = ctx.rng
@@ -269,13 +339,13 @@ def discovery_dynamic(ctx):
         for d in devs:
             dgs += c12.device_datagrams(rng, d)
         scenarios.append(dgs)
-    total = 0
+    jobs = []
+    meta = []
     for si, good in enumerate(scenarios):
         sc = {"mode": "m", "dgrams": good}
         enc = c12.encode_scenario(sc)
-        base_obs, _ = c12.run_scan("m", None, None, c12.feed_for(sc, enc, list(range(len(good)))))
-        base = {c["address"]: c for c in base_obs}
-        # rotate through the hostile announcements; every one is tried in at least one scenario, at two positions
+        jobs.append({"feed": [[src, data.hex()] for src, data in c12.feed_for(sc, enc, list(range(len(good))))]})
+        meta.append(("base", si, None, None))
         for hi, (hname, hd) in enumerate(hostile):
             if not ctx.thorough and (hi % nscen) != si and not hname.startswith(("garbage", "ptr-loop", "huge", "ones", "trunc", "bare", "srv-only", "dangling", "ptr-to", "sleep")):
                 continue
@@ -288,28 +358,41 @@ def discovery_dynamic(ctx):
                     ctx.note("cannot encode hostile announcement %s: %r" % (hname, ex))
                     break
                 feed = c12.feed_for(sc2, enc2, list(range(len(dg))))
-                total += 1
-                err = None
-                try:
-                    obs, info = c12.run_scan("m", None, None, feed)
-                except BaseException as ex:  # noqa
-                    err = "%s: %s" % (type(ex).__name__, ex)
-                    obs = []
-                ctx.case(("discover", si, hname, pos), nontrivial=True,
-                         sample={"scenario": si, "hostile": hname, "position": pos, "good_devices": len(base), "error": err} if total % 97 == 1 else None)
-                ctx.count("discover:" + hname.split(":")[0])
-                replay = {"part": "discover", "hostile": hname, "position": pos,
-                          "feed": [[src, data.hex()] for src, data in feed], "expected_addresses": sorted(base)}
-                if err is not None:
-                    key = ("C05:discover:service-info-barrier" if ("rpfl" in hname or ":sf=" in hname or "features" in hname or "flags" in hname)
-                           else "C05:discover:device-info-barrier" if "wama" in hname else "C05:discover:scan-raises")
-                    ctx.violation(key, "scan() raised %s with one hostile announcement (%s) among %d well-formed devices" % (err, hname, len(base)), replay)
-                    continue
-                got = {c["address"]: c for c in obs}
-                missing = [a for a in base if a not in got]
-                changed = [a for a in base if a in got and c12.normalise([got[a]]) != c12.normalise([base[a]])]
-                if missing or changed:
-                    ctx.violation("C05:discover:well-formed-device-lost", "hostile announcement %s made well-formed devices %s disappear / %s change" % (hname, missing, changed), replay)
+                jobs.append({"feed": [[src, data.hex()] for src, data in feed]})
+                meta.append(("hostile", si, hname, pos))
+    res = run_scans(jobs)
+    base = {}
+    total = 0
+    for (kind, si, hname, pos), job, r in zip(meta, jobs, res):
+        if kind == "base":
+            if r is None or r.get("err"):
+                ctx.tie_broken("discover:baseline-scan", json.dumps({"scenario": si, "error": (r or {}).get("err")}))
+                base[si] = None
+            else:
+                base[si] = {c["address"]: c for c in r["obs"]}
+            continue
+        if base.get(si) is None:
+            continue
+        total += 1
+        b = base[si]
+        err = (r or {}).get("err") if r is not None else "no result"
+        ctx.case(("discover", si, hname, pos), nontrivial=True,
+                 sample={"scenario": si, "hostile": hname, "position": pos, "good_devices": len(b), "error": err} if total % 97 == 1 else None)
+        ctx.count("discover:" + hname.split(":")[0])
+        replay = {"part": "discover", "hostile": hname, "position": pos, "feed": job["feed"], "expected_addresses": sorted(b)}
+        if err is not None:
+            if r is not None and r.get("hang"):
+                key = "C05:discover:scan-hangs"
+            else:
+                key = ("C05:discover:service-info-barrier" if ("rpfl" in hname or ":sf=" in hname or "features" in hname or "flags" in hname)
+                       else "C05:discover:device-info-barrier" if "wama" in hname else "C05:discover:scan-raises")
+            ctx.violation(key, "scan() %s with one hostile announcement (%s) among %d well-formed devices" % ("did not return" if "hangs" in key else "raised " + err, hname, len(b)), replay)
+            continue
+        got = {c["address"]: c for c in r["obs"]}
+        missing = [a_ for a_ in b if a_ not in got]
+        changed = [a_ for a_ in b if a_ in got and c12.normalise([got[a_]]) != c12.normalise([b[a_]])]
+        if missing or changed:
+            ctx.violation("C05:discover:well-formed-device-lost", "hostile announcement %s made well-formed devices %s disappear / %s change" % (hname, missing, changed), replay)
     ctx.traces += total
 
 
@@ -388,14 +471,11 @@ def replay(ctx, path):
         a, b, c = BOUNDS[r["dec"]]
         return 1 if (res[0].get("hang") or res[0]["events"] > a * n * n + b * n + c) else 0
     if r.get("part") == "discover":
-        c12 = importlib.import_module("c12")
-        feed = [(src, bytes.fromhex(h)) for src, h in r["feed"]]
-        try:
-            obs, info = c12.run_scan("m", None, None, feed)
-        except BaseException as ex:  # noqa
-            print("scan raised", repr(ex))
+        res = run_scans([{"feed": r["feed"]}])[0]
+        if res.get("err"):
+            print("scan failed:", res["err"])
             return 1
-        got = sorted(c["address"] for c in obs)
+        got = sorted(c["address"] for c in res["obs"])
         print("returned addresses", got, "expected at least", r["expected_addresses"])
         return 0 if all(a in got for a in r["expected_addresses"]) else 1
     if r.get("codec", "").startswith("opack"):
